@@ -21,6 +21,11 @@ C05 — the property as an executable predicate over what was OBSERVED of one ru
   guns closed       every created gun that is an `io.Closer` was closed exactly once; for the guns of the repo's own
                     registered factories (`rg:` pools, shooting at an in-process server): no connection of the run
                     is open after `Engine.Wait` returned, and a gun that wraps an `io.Closer` is one itself
+  ran out           an instance whose `Run` returned nil (`R<id>.ok` in the await log) had its schedule finished: with
+                    `rps-per-instance` at least as many of the schedules the pool's factory handed out have no token
+                    left (`pK.use=…z<n>…`) as instances ended that way, with a shared schedule that one has none left -
+                    so a run succeeds only if every instance of every pool ran out of ammo (`Acquire` said so) or schedule
+                    (and `S<n>.ctx` of a pool with per-instance schedules in a successful uncancelled run needs a `c` before it)
   cli               (`cli=` cases: the run goes through `cli.runEngine` / `cli.awaitPandoraTermination`) the process
                     ends with status 0 exactly when the run succeeded and no signal was acted on; before any other
                     exit the run context was cancelled (`gs`) and `Engine.Wait` had returned (`fatal.w1`), unless the
@@ -63,7 +68,12 @@ structure PoolObs where
   gwu : Option Bool := none      -- … are `warmup.WarmedUp`
   icl : Option Bool := none      -- … the gun, or the gun it wraps, is an `io.Closer`
   srvopen : Option Nat := none   -- … connections of the run the server still holds open after `Engine.Wait`
+  use : Option String := none    -- `f<dry Acquires>.z<schedules without tokens left>.n<schedules handed out>.s<shots>.d<discarded>`
   deriving Repr
+
+/-- the number after letter `c` in a `use` token (`f1.z2.n2.s4.d0`) -/
+def useField (u : String) (c : Char) : Option Nat :=
+  ((u.splitOn ".").find? (fun t => t.front == c)).bind fun t => (t.drop 1).toNat?
 
 structure Obs where
   res : String
@@ -113,7 +123,7 @@ def parseObs (n : Nat) (impl : String) : Option Obs := do
     pure { main := dashList (← lookup kv s!"p{i}.main"), aw := dashList (← lookup kv s!"p{i}.aw"),
            guns := ← getN? kv s!"p{i}.guns", closes := closes, errs := dashList (← lookup kv s!"p{i}.errs"),
            gcl := (lookup kv s!"p{i}.gcl").map (· == "1"), gwu := (lookup kv s!"p{i}.gwu").map (· == "1"), icl := (lookup kv s!"p{i}.icl").map (· == "1"),
-           srvopen := getN? kv s!"p{i}.srvopen" : PoolObs }
+           srvopen := getN? kv s!"p{i}.srvopen", use := lookup kv s!"p{i}.use" : PoolObs }
   pure { res := res, canc := getS kv "canc" == "1", lat := getS kv "lat" "-", wait := getS kv "wait",
          busy := (getN? kv "busy").getD 0, leak := (getN? kv "leak").getD 0, eng := dashList (getS kv "eng" "-"), engc := getS kv "engc",
          sup := getS kv "sup" "-", pools := pools, cli := (lookup kv "cli").map dashList,
@@ -162,6 +172,42 @@ def gunLeakBad (pl : Plan) (o : Obs) : Option String :=
       else if po.gcl == some false && po.icl == some true then
         some s!"p{i}:the registered gun wraps an io.Closer but is none itself, the engine cannot close it"
       else none
+    | _, _ => none).head?
+
+/-- in a successful run nobody cancelled, a pool with a schedule per instance stops starting instances before its
+startup schedule is through (`S<n>.ctx`) only because an instance ran out of ammo (`c` earlier in the await log): the
+startup schedule is one of the schedules a pool has to run out of -/
+def startCutBad (pl : Plan) (o : Obs) : Option String :=
+  if o.res != "ok" || o.canc then none else
+  ((List.range pl.pools.length).filterMap fun i =>
+    match pl.pools[i]?, o.pools[i]? with
+    | some p, some po =>
+      if !p.per then none else
+      match po.aw.find? (·.startsWith "S") with
+      | some t =>
+        if t.endsWith ".ctx" && !(po.aw.takeWhile (fun x => !x.startsWith "S")).contains "c" then
+          some s!"p{i}:the instance start was cancelled ({t}) although nobody cancelled the run and no instance had run out of ammo"
+        else none
+      | none => none
+    | _, _ => none).head?
+
+/-- an instance may end successfully only when its schedule is finished -/
+def earlyFinishBad (pl : Plan) (o : Obs) : Option String :=
+  ((List.range pl.pools.length).filterMap fun i =>
+    match pl.pools[i]?, o.pools[i]? with
+    | some p, some po =>
+      match po.use with
+      | none => none
+      | some u =>
+        let okInst := (po.aw.filter fun t => t.startsWith "R" && t.endsWith ".ok").length
+        match useField u 'z', useField u 'n' with
+        | some z, some n =>
+          if p.per then
+            if okInst ≤ z then none
+            else some s!"p{i}:{okInst} instances ended without an error, but only {z} of the {n} schedules handed out have no token left"
+          else if okInst == 0 || (z ≥ 1 && z == n) then none
+          else some s!"p{i}:{okInst} instances ended without an error although the shared schedule still has tokens"
+        | _, _ => some s!"p{i}:unreadable use token {u}"
     | _, _ => none).head?
 
 /-- the process-level outcome of a run that went through `cli.awaitPandoraTermination` -/
@@ -237,6 +283,12 @@ def verdict (pl : Plan) (o : Obs) : String :=
     | none =>
     match cliBad pl o with
     | some e => s!"fail:cli-{e}"
+    | none =>
+    match earlyFinishBad pl o with
+    | some e => s!"fail:early-finish:{e}"
+    | none =>
+    match startCutBad pl o with
+    | some e => s!"fail:start-cut:{e}"
     | none =>
     if o.canc && o.lat == "mid" then "skip:inconclusive-latency"
     else if o.blk == some "deadline" then "skip:blocked-component-without-cancel" else "ok"
